@@ -1203,25 +1203,29 @@ class RepositoryPackCollection:
     def _abort_write_group(self):
         # FIXME: just drop the transient index.
         # forget what names there are
-        if self._new_pack is not None:
-            with contextlib.ExitStack() as stack:
-                stack.callback(setattr, self, "_new_pack", None)
-                # If we aborted while in the middle of finishing the write
-                # group, _remove_pack_indices could fail because the indexes are
-                # already gone.  But they're not there we shouldn't fail in this
-                # case, so we pass ignore_missing=True.
-                stack.callback(
-                    self._remove_pack_indices, self._new_pack, ignore_missing=True
-                )
-                self._new_pack.abort()
-        for resumed_pack in self._resumed_packs:
-            with contextlib.ExitStack() as stack:
-                # See comment in previous finally block.
-                stack.callback(
-                    self._remove_pack_indices, resumed_pack, ignore_missing=True
-                )
-                resumed_pack.abort()
-        del self._resumed_packs[:]
+        try:
+            if self._new_pack is not None:
+                with contextlib.ExitStack() as stack:
+                    stack.callback(setattr, self, "_new_pack", None)
+                    # If we aborted while in the middle of finishing the write
+                    # group, _remove_pack_indices could fail because the indexes
+                    # are already gone.  But they're not there we shouldn't fail
+                    # in this case, so we pass ignore_missing=True.
+                    stack.callback(
+                        self._remove_pack_indices, self._new_pack, ignore_missing=True
+                    )
+                    self._new_pack.abort()
+        finally:
+            # Forget the resumed packs even if aborting the new pack failed:
+            # their indices must not stay visible after an abort.
+            for resumed_pack in self._resumed_packs:
+                with contextlib.ExitStack() as stack:
+                    # See comment in previous finally block.
+                    stack.callback(
+                        self._remove_pack_indices, resumed_pack, ignore_missing=True
+                    )
+                    resumed_pack.abort()
+            del self._resumed_packs[:]
 
     def _remove_resumed_pack_indices(self):
         for resumed_pack in self._resumed_packs:
